@@ -56,3 +56,39 @@ Theorem C05_transitive_deps_exact :
 Proof. exact (@deps_of_spec). Qed.
 Print Assumptions C05_transitive_deps_exact.
 
+
+(** ** run-time half: instance identity (Runtime/RT.v mirrors container.get) *)
+From GV Require Import Runtime.RT.
+
+(** shared: once an instance is cached, every later Get returns it and nothing is constructed (state unchanged) *)
+Theorem C05_shared_reused : forall depsf fuel st b id d v,
+  lookup id (rt_services st) = Some d -> resolve_scope depsf st id = OScShared -> lookup id (rt_shared st) = Some v ->
+  get depsf (S fuel) st b id = ((st, b), ROk v).
+Proof. intros depsf fuel st b id d v Hl Hs Hc. cbn [get]. rewrite Hl. cbv zeta. rewrite Hs, Hc. reflexivity. Qed.
+Print Assumptions C05_shared_reused.
+
+(** contextual: the instance of the current call tree / attached context (its bag) is reused *)
+Theorem C05_contextual_reused : forall depsf fuel st b id d v,
+  lookup id (rt_services st) = Some d -> resolve_scope depsf st id = OScContextual -> lookup id b = Some v ->
+  get depsf (S fuel) st b id = ((st, b), ROk v).
+Proof. intros depsf fuel st b id d v Hl Hs Hc. cbn [get]. rewrite Hl. cbv zeta. rewrite Hs, Hc. reflexivity. Qed.
+Print Assumptions C05_contextual_reused.
+
+(** a contextual instance is looked up in the bag of the current context only: another context's bag is never consulted *)
+Theorem C05_contextual_isolated : forall depsf fuel st b b' id,
+  resolve_scope depsf st id = OScContextual -> lookup id b = lookup id b' ->
+  snd (get depsf (S fuel) st b id) = snd (get depsf (S fuel) st b id) /\
+  (forall v, lookup id b = Some v -> snd (get depsf (S fuel) st b' id) = ROk v \/ lookup id (rt_services st) = None).
+Proof.
+  intros depsf fuel st b b' id Hs Hb. split; [reflexivity|]. intros v Hv.
+  destruct (lookup id (rt_services st)) as [d|] eqn:Hl; [left|right; reflexivity].
+  rewrite Hb in Hv. rewrite (C05_contextual_reused depsf fuel st b' id d v Hl Hs Hv). reflexivity.
+Qed.
+
+(** the default scope: contextual iff the service transitively depends on a service declared contextual, otherwise shared *)
+Theorem C05_default_scope : forall depsf st n, declared_scope st n = OScDefault ->
+  resolve_scope depsf st n = (if existsb (fun d => match declared_scope st d with OScContextual => true | _ => false end) (depsf st n) then OScContextual else OScShared).
+Proof. intros depsf st n H. unfold resolve_scope. rewrite H. reflexivity. Qed.
+Print Assumptions C05_default_scope.
+Theorem C05_declared_scope_kept : forall depsf st n, declared_scope st n <> OScDefault -> resolve_scope depsf st n = declared_scope st n.
+Proof. intros depsf st n H. unfold resolve_scope. destruct (declared_scope st n); congruence. Qed.
